@@ -25,7 +25,7 @@ CONSTANTS
   N, Ts,    \* fresh: group size and the set of thresholds to explore
   Fasts,    \* subset of BOOLEAN: values of Config.FastSync to explore
   MaxF,     \* at most this many faulty parties (also limited by n-t per group)
-  MenuLvl,  \* "full" | "small" | "proto" | "eq" | "fc" (false complaints only: the threshold-boundary menu) | "fcp"
+  MenuLvl,  \* "full" | "small" | "proto" | "eq" | "fc" (false complaints only: the threshold-boundary menu) | "fcp" | "eq2" | "eq2all"
   OrdMode,  \* "all" (every permutation per phase) | "two" (asc/desc per phase) | "glob" (asc/desc chosen once)
   Rec,      \* BOOLEAN: record hist (generator) / keep it empty (model checking)
   LeaveFix  \* BOOLEAN: ProcessResponses accepts a leaving (old-only) dealer (finding #10 repaired)
@@ -71,7 +71,11 @@ Cnt(S) == Cardinality(S)
 KV(f)  == SetToSortSeq({[k |-> x, v |-> f[x]] : x \in DOMAIN f}, LAMBDA a, b : a.k < b.k)
 SetSeq(S) == SetToSortSeq(S, LAMBDA a, b : a < b)
 
-FaultySets == {S \in SUBSET P : /\ Cnt(S) <= MaxF
+\* menu levels "eq2" / "eq2all": exactly two equivocating dealers (parties a and a+2; eq2: a = 1)
+FaultySets == IF MenuLvl = "eq2" THEN {{1, 3}}
+              ELSE IF MenuLvl = "eq2all" THEN {{a, a + 2} : a \in {x \in P : x + 2 \in P}}
+              ELSE
+              {S \in SUBSET P : /\ Cnt(S) <= MaxF
                                 /\ Cnt(S \cap Dealers) <= Cnt(Dealers) - OT
                                 /\ Cnt(S \cap Holders) <= Cnt(Holders) - NT}
 
@@ -238,6 +242,7 @@ ShPats ==
 
 DealMenu(f) ==
   IF f \notin Dealers THEN {<<>>}
+  ELSE IF MenuLvl \in {"eq2", "eq2all"} THEN {<<DB(f, 1, 1, AllG, "ok"), DB(f, 2, 2, AllG, "ok")>>}
   ELSE IF MenuLvl = "fc" THEN {<<>>, <<DB(f, 1, 1, AllG, "ok")>>}
   ELSE IF MenuLvl = "fcp" THEN {<<DB(f, 1, 1, AllG, "ok")>>}
                                \cup {<<DB(f, 1, 1, [j \in Holders |-> IF j = x THEN "B" ELSE "G"], "ok")>> : x \in HH}
@@ -266,7 +271,9 @@ RespMenu(f) ==
                  ELSE IF MenuLvl = "proto" THEN {{}, d0}
                  ELSE {{}} \cup {{d} : d \in O} \cup {O}
            FL == IF MenuLvl = "proto" THEN {} ELSE {"sid", "unk", "oor", "author"} \cup (IF Fast THEN {"partial"} ELSE {"succ"})
-       IN IF MenuLvl = "fc" THEN {<<>>} \cup {<<RespBundle(f, 1, cs, "ok")>> : cs \in {{}} \cup {{d} : d \in O} \cup {O}}
+       IN IF MenuLvl \in {"eq2", "eq2all"} THEN {IF Fast THEN <<RespBundle(f, 1, {}, "ok")>> ELSE <<>>}
+          ELSE
+          IF MenuLvl = "fc" THEN {<<>>} \cup {<<RespBundle(f, 1, cs, "ok")>> : cs \in {{}} \cup {{d} : d \in O} \cup {O}}
           ELSE
           IF MenuLvl = "fcp" THEN {<<>>, <<RespBundle(f, 1, O, "ok")>>}
           ELSE
@@ -289,7 +296,7 @@ JustMenu1(f) ==
            g1 == IF C = {} THEN g ELSE [j \in {MinOf(C)} |-> "good"]
            gb == IF C = {} THEN g ELSE [j \in C |-> IF j = MinOf(C) THEN "good" ELSE "bad"]
            ga == [j \in Holders |-> "good"]
-       IN IF MenuLvl \in {"fc", "fcp"} THEN {<<>>, <<JB(f, 1, TRUE, FALSE, g)>>}
+       IN IF MenuLvl \in {"fc", "fcp", "eq2", "eq2all"} THEN {<<>>, <<JB(f, 1, TRUE, FALSE, g)>>}
           ELSE
           IF MenuLvl = "eq" THEN {<<>>, <<JB(f, 1, TRUE, FALSE, g)>>,
                                    <<JB(f, 1, TRUE, FALSE, g), JB(f, 2, TRUE, FALSE, b)>>}
